@@ -73,6 +73,7 @@ type callerObs struct {
 	Value     string
 	Err       error
 	Panicked  string
+	NoResp    bool
 }
 
 type reqObs struct {
@@ -98,7 +99,7 @@ func (w *world) observe() obs {
 	var o obs
 	w.mu.Lock()
 	for _, c := range w.callers {
-		o.Callers = append(o.Callers, callerObs{c.submitted, c.returns, c.value, c.err, c.panicked})
+		o.Callers = append(o.Callers, callerObs{c.submitted, c.returns, c.value, c.err, c.panicked, c.noResp})
 	}
 	w.mu.Unlock()
 	s := w.srv
@@ -210,6 +211,9 @@ func (w *world) enabled(o *obs, budget int) []string {
 			}
 		}
 	}
+	if next >= 0 && atomic.LoadInt32(&w.failNextSend) == 0 {
+		out = append(out, "NS") // only useful when a submission can follow
+	}
 	out = append(out, "X")
 	if w.cfg.AddrX {
 		out = append(out, "XA")
@@ -220,6 +224,7 @@ func (w *world) enabled(o *obs, budget int) []string {
 // expectation of one event: which callers must (and may) return because of it.
 type expect struct {
 	must   map[int]string // caller -> required result class ("ok", "timeout", "canceled", "closed|failure", "failure")
+	may    map[int]string // caller -> result class it may (but need not) complete with because of the event
 	reason string
 	shape  string // refines the violation key of a call that stays blocked
 }
@@ -228,7 +233,7 @@ var errNotEnabled = fmt.Errorf("event not enabled")
 
 // perform executes one event (without waiting) and says what the property requires of it.
 func (w *world) perform(o *obs, e string) (expect, error) {
-	ex := expect{must: map[int]string{}}
+	ex := expect{must: map[int]string{}, may: map[int]string{}}
 	findReq := func(p string) *reqObs {
 		for i := range o.Reqs {
 			if o.Reqs[i].Payload == p {
@@ -247,6 +252,13 @@ func (w *world) perform(o *obs, e string) (expect, error) {
 		}
 	}
 	switch {
+	case e == "NS":
+		if w.closed || atomic.LoadInt32(&w.failNextSend) != 0 {
+			return ex, errNotEnabled
+		}
+		atomic.StoreInt32(&w.failNextSend, 1)
+		w.sendFailArmed = true
+		ex.reason = "arming a send failure completes nobody"
 	case strings.HasPrefix(e, "S"):
 		body := e[1:]
 		variant := vPlain
@@ -265,6 +277,17 @@ func (w *world) perform(o *obs, e string) (expect, error) {
 		if w.closed {
 			ex.must[i] = "closed"
 			ex.reason = "a call on a closed client must fail at once"
+		}
+		if !w.closed && atomic.LoadInt32(&w.failNextSend) != 0 {
+			// if this submission is written now, the write fails and the call must end with that failure
+			// (with a concurrency limit it may be queued instead and stay pending)
+			ex.may[i] = "failure"
+			for j := range o.Callers { // calls still queued in the client are written in the same batch
+				if o.inflight(j) && findReq(w.callers[j].payload()) == nil {
+					ex.may[j] = "failure"
+				}
+			}
+			ex.reason = "the batch could not be written to the stream"
 		}
 		w.submit(w.callers[i], variant)
 	case strings.HasPrefix(e, "A:"):
@@ -450,7 +473,7 @@ func eventKind(e string) string {
 	if i := strings.IndexByte(e, ':'); i >= 0 {
 		return e[:i]
 	}
-	if e == "X" || e == "XA" || e == "final-close" {
+	if e == "X" || e == "XA" || e == "final-close" || e == "NS" {
 		return e
 	}
 	k := e[:1]
@@ -505,6 +528,13 @@ func (w *world) check(before, after *obs, e string, ex expect) []viol {
 		if !newly {
 			continue
 		}
+		if a.NoResp {
+			add("no-response-no-error/"+tag+"/after-"+kind, fmt.Sprintf("caller %d completed with neither a response nor an error (event %s)", i, e))
+			continue
+		}
+		if mw, ok := ex.may[i]; ok && !must {
+			want, must = mw, true
+		}
 		if (c.tainted || c.pendingAfterDrop) && !must {
 			// The call was left pending by an earlier stream failure (or was already reported as blocked);
 			// it may be released later by an unrelated event (a later failure of the re-created stream, a
@@ -544,7 +574,7 @@ func (w *world) check(before, after *obs, e string, ex expect) []viol {
 		case "closed":
 			okCause = w.closed || w.addrClosed > 0
 		case "failure":
-			okCause = w.dropped || w.closed || w.addrClosed > 0
+			okCause = w.dropped || w.closed || w.addrClosed > 0 || w.sendFailArmed
 		}
 		if !okCause {
 			add("uncaused-error/"+tag+"/"+cls+"/after-"+kind, fmt.Sprintf("caller %d returned %s but no such event happened to it", i, desc))
@@ -651,7 +681,7 @@ func stateHash(w *world, o *obs) uint64 {
 	for _, s := range o.Streams {
 		fmt.Fprintf(&sb, "s%s:%v;", s.Kind, s.Alive)
 	}
-	fmt.Fprintf(&sb, "x%v:%d", w.closed, w.addrClosed)
+	fmt.Fprintf(&sb, "x%v:%d:%d", w.closed, w.addrClosed, atomic.LoadInt32(&w.failNextSend))
 	h := fnv.New64a()
 	h.Write([]byte(sb.String()))
 	if stateDump != nil {
